@@ -256,6 +256,68 @@ def shared_folders(rnd, k):
     return rec
 
 
+class _Legacy:
+    """a dataset written without connectome, wrapped by External"""
+
+    def __init__(self, tag):
+        self.tag = tag
+
+    @property
+    def ids(self):
+        return ('a', 'b', 'c')
+
+    def image(self, i):
+        return f'image-{self.tag}-{i}'
+
+    def mask(self, i):
+        return f'mask-{self.tag}-{i}'
+
+    def spacing(self, i):
+        return f'spacing-{self.tag}-{i}'
+
+
+def external_methods(rnd, k):
+    """the methods of ONE object wrapped by External, behind a disk cache, a RAM cache or a column cache over all of them: every field of every
+    id has its own node hash and its own value (each method is a different computation)"""
+    import shutil
+    import tempfile
+    from connectome import CacheToDisk, CacheToRam, External
+    from connectome.serializers import PickleSerializer
+    kind = rnd.choice(['disk', 'disk', 'ram'])
+    fields = rnd.sample(['image', 'mask', 'spacing'], rnd.randint(2, 3))
+    root = tempfile.mkdtemp(prefix=f'ext{k}_')
+    rec = {'kind': kind, 'fields': fields, 'rows': []}
+    try:
+        plain = External(_Legacy('x'), inputs=['i'])
+        if kind == 'disk':
+            cached = External(_Legacy('x'), inputs=['i']) >> CacheToDisk.simple(*fields, root=root, serializer=PickleSerializer())
+        elif kind == 'ram':
+            cached = External(_Legacy('x'), inputs=['i']) >> CacheToRam(fields)
+        else:
+            from connectome import CacheColumns
+            from tarn import DiskDict, HashKeyStorage
+            from tarn.config import StorageConfig, init_storage
+            index, storage = os.path.join(root, 'index'), os.path.join(root, 'storage')
+            init_storage(StorageConfig(hash='sha256', levels=[1, 31]), index)
+            init_storage(StorageConfig(hash='sha256', levels=[1, 31]), storage)
+            cached = External(_Legacy('x'), inputs=['i']) >> CacheColumns(index, HashKeyStorage(DiskDict(storage)), PickleSerializer(), fields)
+        order = [(f, i) for i in ('a', 'b') for f in fields]
+        rnd.shuffle(order)
+        for f, i in order:
+            row = {'field': f, 'key': i, 'reference': getattr(plain, f)(i)}
+            try:
+                row['digest'] = digest(plain._compile(f).get_hash(i)[0])
+                row['value'] = getattr(cached, f)(i)
+            except BaseException as e:  # noqa
+                row['exc'] = exc_name(e)
+            rec['rows'].append(row)
+    except BaseException as e:  # noqa
+        rec['error'] = exc_name(e)
+    finally:
+        shutil.rmtree(root, ignore_errors=True)
+    return rec
+
+
 def main():
     ap = argparse.ArgumentParser()
     ap.add_argument('--seed', type=int, default=0)
@@ -264,7 +326,8 @@ def main():
     a = ap.parse_args()
     rnd = random.Random(a.seed * 17 + 5)
     fams = [family(rnd) for _ in range(a.n)]
-    dump({'families': fams, 'shared_folders': [shared_folders(rnd, k) for k in range(max(6, a.n // 6))]}, a.out)
+    dump({'families': fams, 'shared_folders': [shared_folders(rnd, k) for k in range(max(6, a.n // 6))],
+          'external': [external_methods(rnd, k) for k in range(max(6, a.n // 6))]}, a.out)
 
 
 if __name__ == '__main__':
